@@ -185,8 +185,16 @@ fn doc_object(rng: &mut Rng, ty: usize, size: usize) -> Result<(c16::Obj, c16::O
     let herr = |s: &str| Fail::Harness(HarnessError(s.to_string()));
     let (spec, ops): (ObjSpec, Vec<c16::Op>) = match ty {
         0 | 1 => {
-            let nv = if size == 0 { 1 } else { 3 };
-            let names = crate::rsx::gen_names(rng, nv, "");
+            let nv = match size {
+                0 => 1,
+                1 => 3,
+                _ => 40,
+            };
+            let names: Vec<String> = if size >= 2 {
+                (0..nv).map(|i| format!("v{}", i)).collect()
+            } else {
+                crate::rsx::gen_names(rng, nv, "")
+            };
             let x = gen_num_with(rng, (ty + 1) as u8, nv, names, &mut short_values);
             (
                 ObjSpec::Number {
@@ -198,7 +206,15 @@ fn doc_object(rng: &mut Rng, ty: usize, size: usize) -> Result<(c16::Obj, c16::O
             )
         }
         2 => (
-            ObjSpec::Cal(gen_cal(rng, 2, if size == 0 { 2 } else { 7 })),
+            ObjSpec::Cal(gen_cal(
+                rng,
+                2,
+                match size {
+                    0 => 2,
+                    1 => 7,
+                    _ => 60,
+                },
+            )),
             vec![],
         ),
         3 => {
@@ -214,7 +230,10 @@ fn doc_object(rng: &mut Rng, ty: usize, size: usize) -> Result<(c16::Obj, c16::O
             loop {
                 plan = c10::generate(rng, Tier::Quick);
                 let n = plan.setup.quotes.len();
-                if (size == 0 && n <= 2) || (size > 0 && (2..=4).contains(&n)) {
+                if (size == 0 && n <= 2)
+                    || (size == 1 && (2..=4).contains(&n))
+                    || (size >= 2 && n >= 6)
+                {
                     break;
                 }
             }
@@ -234,7 +253,10 @@ fn doc_object(rng: &mut Rng, ty: usize, size: usize) -> Result<(c16::Obj, c16::O
             loop {
                 base = c12::generate(rng, Tier::Quick);
                 let n = base.setup.nodes.len();
-                if (size == 0 && n <= 2) || (size > 0 && (3..=4).contains(&n)) {
+                if (size == 0 && n <= 2)
+                    || (size == 1 && (3..=4).contains(&n))
+                    || (size >= 2 && n >= 21)
+                {
                     break;
                 }
             }
@@ -277,7 +299,7 @@ fn doc_object(rng: &mut Rng, ty: usize, size: usize) -> Result<(c16::Obj, c16::O
             loop {
                 spec = gen_spline(rng);
                 let n = spec.t.len() - spec.k;
-                if (size == 0 && n <= 3) || (size > 0 && (4..=6).contains(&n)) {
+                if (size == 0 && n <= 3) || (size > 0 && (4..=10).contains(&n)) {
                     break;
                 }
             }
@@ -293,7 +315,11 @@ fn doc_object(rng: &mut Rng, ty: usize, size: usize) -> Result<(c16::Obj, c16::O
     let recipe = format!(
         "{} ({}) built from a seeded recipe",
         DOC_TYPE_NAMES[ty],
-        if size == 0 { "small" } else { "medium" }
+        match size {
+            0 => "small",
+            1 => "medium",
+            _ => "large",
+        }
     );
     let mut older = c16::build_obj(&spec)?;
     let mut newer = c16::build_obj(&spec)?;
@@ -322,7 +348,9 @@ fn canon(text: Vec<u8>) -> Result<String, Fail> {
 
 pub fn make_doc(seed: u64, unit: u64) -> Result<Doc, Fail> {
     let ty = (unit as usize) % DOC_TYPES;
-    let size = ((unit as usize) / DOC_TYPES) % 2;
+    let block = (unit as usize) / DOC_TYPES;
+    // small, medium alternating; every tenth block (thorough only reaches it) large
+    let size = if block % 10 == 9 { 2 } else { block % 2 };
     let mut rng = Rng::new(mix(seed, "C20-doc", unit));
     let (older, newer, recipe) = doc_object(&mut rng, ty, size)?;
     let save = |o: &c16::Obj, m: c16::Medium| -> Result<String, Fail> {
